@@ -32,6 +32,7 @@ type RdrSpec struct {
 	Twice  bool
 	Detach bool // detach by itself right after attaching instead of waiting for Close()
 	Pre    bool // attach in the main task before the concurrent phase starts
+	Hidden bool // a reader the API does not list (like the HLS muxer): it occupies a slot all the same
 }
 
 // PubReadBody builds a body: publishers and readers run concurrently on path "p"; the main task waits for
@@ -72,7 +73,7 @@ func PubReadBodyOpt(c *conf.Conf, pubs []PubSpec, rdrs []RdrSpec, hooks bool, au
 		preRdr := map[string]*preR{}
 		for _, rs := range rdrs {
 			if rs.Pre {
-				x := &preR{r: &Rdr{ID: rs.ID}, closed: make(chan struct{})}
+				x := &preR{r: &Rdr{ID: rs.ID, Hidden: rs.Hidden}, closed: make(chan struct{})}
 				c := x.closed
 				x.r.OnClose = func() { vsched.Close(c) }
 				x.res, x.sr, _ = pm.Read(x.r, "p", m, f)
@@ -151,7 +152,7 @@ func PubReadBodyOpt(c *conf.Conf, pubs []PubSpec, rdrs []RdrSpec, hooks bool, au
 						return
 					}
 				} else {
-					r = &Rdr{ID: rs.ID}
+					r = &Rdr{ID: rs.ID, Hidden: rs.Hidden}
 					closed = make(chan struct{})
 					r.OnClose = func() { vsched.Close(closed) }
 					var err error
